@@ -1,11 +1,26 @@
 #!/usr/bin/env python3
 import json, sys
 pid = sys.argv[1]
+rnd = int(sys.argv[2]) if len(sys.argv) > 2 else 1
+A, B = 'm%d' % (2 * rnd - 1), 'm%d' % (2 * rnd)
 for l in open('/verif/properties.jsonl'):
     p = json.loads(l)
     if p['id'] == pid:
         break
 wt = '/tmp/mut/%s' % pid
+used = ''
+if rnd > 1:
+    import glob, os
+    items = []
+    for d in sorted(glob.glob('/verif/seeded/%s-m*' % pid)):
+        try:
+            m = json.load(open(os.path.join(d, 'meta.json')))
+        except Exception:
+            continue
+        items.append('- ' + (m.get('summary') or '')[:330].replace('\n', ' '))
+    used = ('\n\nALREADY USED (earlier rounds produced these; do NOT reuse the same code site or the same idea - pick OTHER parts of the property: other clauses of the statement, other code paths, other files among the starting points or files they call):\n'
+            + '\n'.join(items)
+            + '\n\nAim for variety: the two new changes should break DIFFERENT clauses of the property statement than the ones above where possible, and should be at least as subtle (a particular combination of options, a multi-step history, a boundary size, state shared between two uses, a particular position, an unusual but legal input).  The directory MUTANTS/ may already contain earlier mutants: leave them alone.\n')
 print(f"""You are helping to evaluate a verification harness by *seeding realistic defects* into a copy of an open-source project.
 
 Project: emilkarlen/exactly — a command-line program tester with its own test-case DSL (Python, sources under src/exactly_lib).
@@ -21,16 +36,18 @@ THE PROPERTY that your changes must break:
   Quantified over: {p['quantifier']['text']}
   Code that is meant to make it hold (starting points): {', '.join(p['anchors']['files'][:12])}
 
-TASK: produce TWO independent source changes ("m1" and "m2", different mechanisms / different code sites) under {wt}/src, each of which
+TASK: produce TWO independent source changes ("{A}" and "{B}", different mechanisms / different code sites) under {wt}/src, each of which
   (a) makes exactly violate the property above for some input / fault sequence / history,
   (b) still imports/compiles and passes the project's pinned test-suite: run  `python3 /tmp/mut/pinned.py {wt}`  — it must print 155/155 and exit 0 with your change applied,
   (c) is REALISTIC and SUBTLE: the kind of slip a maintainer could make in a refactoring or optimisation (off-by-one, wrong variable, a condition inverted on one path only, a missing case in one branch, state hoisted/shared, an ordering of two steps swapped, an early return, a cache not invalidated...). It must need something SPECIFIC to manifest — a particular position, a particular combination of options, a multi-step sequence, an unusual input, a failure at a particular step, or two cooperating sites that each look fine alone.  A change that breaks the most ordinary use of the feature immediately (e.g. every test case fails) is NOT wanted.  Do not add new options/instructions; do not break things unrelated to the property; keep each diff small (typically 1-15 lines).
   (d) comes with a demonstration: a small self-contained Python script that exits 0 on the ORIGINAL source and exits non-zero (printing what went wrong) with your change applied. It should exercise exactly through its public behaviour (running the main program on generated test-case files in a temp dir, or calling the library entry points named in the property).  It takes the source root as env PYTHONPATH, so the same script is run against both trees.
-
+{used}
 DELIVERABLES — create these files (the directory {wt}/MUTANTS is yours):
-  {wt}/MUTANTS/m1/patch.diff    (output of `git -C {wt} diff -- src` with ONLY change m1 applied)
-  {wt}/MUTANTS/m1/demo.py
-  {wt}/MUTANTS/m1/meta.json     {{"property": "{p['id']}", "summary": "...what was changed...", "needs_to_manifest": "...the specific input/sequence/fault needed...", "ran": ["commands you ran and their results"]}}
-  and the same under m2/.
-Procedure per mutant: start from a clean tree (`git -C {wt} checkout -- src`), edit, run pinned.py (must be 155/155), run demo.py on your mutated tree (must fail) , save the diff, then `git -C {wt} checkout -- src` and run demo.py again on the clean tree (must pass, exit 0).  Verify that patch.diff applies cleanly with `git -C {wt} apply --check MUTANTS/m1/patch.diff` on the clean tree.  Leave the worktree's src CLEAN (no modifications) when you finish; clean up any temp dirs you created under /tmp (not your worktree).
-Finish with a short report: for each mutant one paragraph (what, where, what is needed to trigger, how demo shows it).""")
+  {wt}/MUTANTS/{A}/patch.diff    (output of `git -C {wt} diff -- src` with ONLY change {A} applied)
+  {wt}/MUTANTS/{A}/demo.py
+  {wt}/MUTANTS/{A}/meta.json     {{"property": "{p['id']}", "summary": "...what was changed...", "needs_to_manifest": "...the specific input/sequence/fault needed...", "ran": ["commands you ran and their results"]}}
+  and the same under {B}/.
+Procedure per mutant: start from a clean tree (`git -C {wt} checkout -- src`), edit, run pinned.py (must be 155/155), run demo.py on your mutated tree (must fail) , save the diff, then `git -C {wt} checkout -- src` and run demo.py again on the clean tree (must pass, exit 0).  Verify that patch.diff applies cleanly with `git -C {wt} apply --check MUTANTS/{A}/patch.diff` on the clean tree.  Leave the worktree's src CLEAN (no modifications) when you finish; clean up any temp dirs you created under /tmp (not your worktree).
+Always `cd {wt}` before running anything (so that stray output files land in your worktree, not elsewhere).
+Finish with a short report: for each mutant one paragraph (what, where, what is needed to trigger, how demo shows it).
+SIDE FINDINGS: if, while exploring, you notice that the ORIGINAL (unchanged) tree itself behaves in a way that contradicts the property statement above, do not fix it and do not build a mutant on it, but list it at the end of your report under 'Side findings' with a minimal reproducer (the exact test-case text / command and what happens).""")
